@@ -6,7 +6,7 @@ import types
 REPO = os.environ.get('VERIF_REPO', '/repo')
 
 
-def load_real(relpath, name, overrides=None, post=None):
+def load_real(relpath, name, overrides=None, post=None, attr_overrides=None):
   path = os.path.join(REPO, relpath)
   src = open(path).read()
   mod = types.ModuleType(name)
@@ -16,9 +16,16 @@ def load_real(relpath, name, overrides=None, post=None):
     saved[k] = sys.modules.get(k)
     sys.modules[k] = v
   sys.modules[name] = mod
+  saved_attrs = []
+  for (pkg, attr), v in (attr_overrides or {}).items():
+    pm = sys.modules[pkg]
+    saved_attrs.append((pm, attr, getattr(pm, attr, None)))
+    setattr(pm, attr, v)
   try:
     exec(compile(src, path, 'exec'), mod.__dict__)   # pylint: disable=exec-used
   finally:
+    for pm, attr, old in saved_attrs:
+      setattr(pm, attr, old)
     for k, v in saved.items():
       if v is None:
         sys.modules.pop(k, None)
